@@ -7,6 +7,7 @@
 From Coq Require Import Reals ZArith List Bool String.
 From PyLib Require Import PyVal PyBuiltins Ideal.
 From Gen Require Import M_base M_Angle M_Epoch M_Interpolation M_Coordinates M_Earth M_Sun.
+From Proofs.C14 Require C14_witness.
 From Proofs.C14 Require Import C14_tac C14_angle C14_angle2 C14_jde C14_eot C14_season C14_season_all C14_poly C14_rise C14_riseset C14_trts.
 Import ListNotations.
 Open Scope R_scope.
@@ -28,9 +29,12 @@ Theorem C14_eot_closed_form : forall jde lon lat r eps alpha dec dpsi l0,
   Sun_equation_of_time Rops (epo jde) = VTuple [VInt (Rtrunc E); VFloat (Rfmod (Rabs E) 1 * 60)].
 Proof. exact eot_closed_form_J2000. Qed.
 
-Theorem C14_eot_reduced : forall x, exists k : Z, red360 x = x - 360 * IZR k.
-Proof. exact red360_congr. Qed.
+(* red360 x = x - 360 * Rround (x / 360) (by definition) is THE representative of x modulo 360
+   inside (-180, 180): if x - 360 k lies strictly inside, the code's reduction returns exactly it *)
+Theorem C14_eot_reduced : forall x (k : Z), Rabs (x - 360 * IZR k) < 180 -> red360 x = x - 360 * IZR k.
+Proof. exact red360_unique. Qed.
 
+(* structural bound only (the property's 25 / 17.5 min are searched, not proved) *)
 Theorem C14_eot_bound : forall x, Rabs (red360 x * 4) <= 720.
 Proof. exact eot_minutes_bound. Qed.
 
@@ -40,29 +44,23 @@ Proof. exact eot_seconds_range. Qed.
 Theorem C14_eot_recompose : forall E, IZR (Z.abs (Rtrunc E)) + Rfmod (Rabs E) 1 * 60 / 60 = Rabs E.
 Proof. exact eot_recompose. Qed.
 
-(* seasons: the iteration starts at Epoch(jde0 k y), jde0 the Meeus polynomial of the season and
-   year range: a failure of the Sun position there is the result of the call *)
-Theorem C14_season_first_query : forall (D : R -> Prop) k y x,
-  (0 <= k <= 3)%Z -> (-1000 <= y <= 3000)%Z -> CtorExact D -> D (jde0 k y) ->
-  Sun_apparent_geocentric_position Rops (epo (jde0 k y)) (VBool true) = VErr x ->
-  Sun_get_equinox_solstice Rops (VInt y) (VStr (season_name k)) = VErr x.
-Proof. exact season_first_query. Qed.
-
-(* the call is a loop started at (corr = 1.0, Epoch(jde0)); with no fuel it is OutOfFuel, and
-   when |corr| <= 2.5e-6 the loop returns Epoch(epoch - corr) *)
-Theorem C14_season_exit_step : forall (D : R -> Prop) k y,
-  (0 <= k <= 3)%Z -> (-1000 <= y <= 3000)%Z -> CtorExact D -> D (jde0 k y) ->
-  exists F : nat -> val R -> val R -> val R -> val R -> val R -> val R -> val R, Sun_get_equinox_solstice Rops (VInt y) (VStr (season_name k))
-      = F loop_fuel (VErr UnboundLocalError) (VFloat 1) (epo (jde0 k y))
-          (VErr UnboundLocalError) (VErr UnboundLocalError) (VErr UnboundLocalError) /\
-    (forall a c e la lo r, F 0%nat a (VFloat c) (epo e) la lo r = VErr OutOfFuel) /\
-    forall n a c e la lo r, Rabs c <= 25 / 10000000 -> D (e - c) ->
-       F (S n) a (VFloat c) (epo e) la lo r = epo (e - c).
-Proof. exact season_exit_step. Qed.
+(* seasons: structure of the generated function.  For every season k and year y the call is a
+   loop function F (the generated `while` with fuel) started with corr = 1.0 at Epoch(jde0 k y),
+   jde0 the Meeus polynomial of the season and year table; F is pinned down on every state it can
+   reach: no fuel -> OutOfFuel; |corr| <= 2.5e-6 -> Epoch(epoch - corr); otherwise, with the Sun at
+   longitude l, one more round with corr = 58 sin(k*90 - l+) and epoch advanced by corr (the last
+   conjunct relates F (S n) to F n, so F is not an arbitrary function).  CtorExact D: the Epoch
+   constructor is exact on the set D of instants (attained e.g. at dyadic JDEs, C14_callee_shapes). *)
+Theorem C14_season_structure : forall (D : R -> Prop) k y,
+  (0 <= k <= 3)%Z -> (-1000 <= y <= 3000)%Z -> CtorExact D -> D (jde0 k y) -> SeasonStructure D k y.
+Proof. exact season_structure_all. Qed.
 
 (* the loop invariant, by induction on the fuel of the generated loop.  D: any set of instants on
    which the Epoch constructor is exact and the Sun position is (lam, bet, rad), closed under the
-   correction step e -> e + 58 sin(k*90 - lam+(e)) and containing jde0.  Whenever the model returns
+   correction step e -> e + 58 sin(k*90 - lam+(e)) and containing jde0.  PARTIAL CORRECTNESS: termination
+   is not proved (the OutOfFuel disjunct), the premises SunModel / StepClosed are not shown attainable
+   (that needs the VSOP series), and sin = 0 also at the antipode (excluded only by the search).
+   Whenever the model returns
    anything but OutOfFuel it returns an Epoch t in D with |58 sin(k*90 - lam+(t))| <= 2.5e-6,
    lam+ = the longitude brought to [0, 360). *)
 Theorem C14_season_loop_invariant : forall (D : R -> Prop) k y lam bet rad,
@@ -71,15 +69,16 @@ Theorem C14_season_loop_invariant : forall (D : R -> Prop) k y lam bet rad,
   SeasonGood D k lam (Sun_get_equinox_solstice Rops (VInt y) (VStr (season_name k))).
 Proof. exact season_loop_invariant. Qed.
 
-Theorem C14_season_year_range : forall y,
-  ((y < -1000)%Z -> Sun_get_equinox_solstice Rops (VInt y) (VStr "spring") = VErr ValueError) /\
-  ((3000 < y)%Z -> Sun_get_equinox_solstice Rops (VInt y) (VStr "winter") = VErr ValueError).
-Proof. intro y. split; [apply season_range_lo | apply season_range_hi]. Qed.
+Theorem C14_season_year_range : forall k y, (0 <= k <= 3)%Z -> (y < -1000 \/ 3000 < y)%Z ->
+  Sun_get_equinox_solstice Rops (VInt y) (VStr (season_name k)) = VErr ValueError.
+Proof. exact season_year_range. Qed.
 
 Theorem C14_season_type : forall y s, Sun_get_equinox_solstice Rops (VFloat y) (VStr s) = VErr TypeError.
 Proof. exact season_type_float. Qed.
 
-(* mean instants: ordered and 88..95 days apart, same season 365.2..365.3 days apart
+(* [about the mean instants jde0 the iteration starts from (tied to the code by C14_season_structure),
+   NOT about the returned instants, whose distance from jde0 is only searched]
+   mean instants: ordered and 88..95 days apart, same season 365.2..365.3 days apart
    (including 999 -> 1000 across the two tables), tables agree to 0.01 d at year 1000 *)
 Theorem C14_season_order : forall y, (-1000 <= y <= 3000)%Z ->
   88 <= jde0 1 y - jde0 0 y <= 95 /\ 88 <= jde0 2 y - jde0 1 y <= 95 /\ 88 <= jde0 3 y - jde0 2 y <= 95.
@@ -92,36 +91,42 @@ Proof. exact season_year_length. Qed.
 Theorem C14_season_joint : forall k, (0 <= k <= 3)%Z -> Rabs (jdeB k (-1) - jdeA k 1) <= 1/100.
 Proof. exact joint_continuity. Qed.
 
-(* sunrise equation *)
+(* sunrise equation: pure trigonometry [spec]; tied to the generated rise_set by
+   C14_rise_set_closed_form + C14_rise_set_altitude and to times_rise_transit_set by C14_trts_none *)
 Theorem C14_sunrise_identity : forall h0 phi delta w0,
   cos phi * cos delta <> 0 -> cos w0 = cos_w0 h0 phi delta ->
   sin_alt phi delta w0 = sin h0 /\ sin_alt phi delta (- w0) = sin h0.
 Proof. exact sunrise_identity. Qed.
 
 (* Epoch.rise_set, generated text: closed form.  With (y, mo, d) = get_date, j0 = Epoch(y, mo, d),
-   ls = leap_seconds(y, mo), m and lam the two float % 360 values, the call returns the Epochs
-   jt -+ w/360 where w = degrees(acos c) and c = rs_cosom h phi sd is the sunrise-equation quotient
-   with h0 = -0.83 - 2.076 sqrt(h)/60 degrees and sd = sin(lam) sin(23.44 deg). *)
-Theorem C14_rise_set_closed_form : forall j phi lo h y mo d j0 ls m lam,
+   ls = leap_seconds(y, mo) (an int), the two float % 360 evaluated (pymod), the call returns the two
+   Epochs constructed from the floats jt -+ w/360 where w = degrees(acos c) and c = rs_cosom h phi sd is
+   the sunrise-equation quotient with h0 = -0.83 - 2.076 sqrt(h)/60 degrees, sd = sin(lam) sin(23.44 deg).
+   The callee hypotheses have the shapes the model returns (C14_callee_shapes). *)
+Theorem C14_rise_set_closed_form : forall j phi lo h y mo d j0 ls,
   -360 < phi < 360 -> - (6655 / 100) <= phi <= 6655 / 100 -> 0 <= h ->
   Epoch_get_date Rops (epo j) (VDict []) = VTuple [VInt y; VInt mo; VFloat d] ->
   Epoch___init__ Rops (VObj cEpoch [VNone]) (VTuple [VInt y; VInt mo; VFloat d]) (VDict []) = epo j0 ->
-  Epoch_leap_seconds Rops (VInt y) (VInt mo) = VFloat ls ->
+  Epoch_leap_seconds Rops (VInt y) (VInt mo) = VInt ls ->
   let js := rs_jstar j0 ls lo in
-  fmod_py Rops (rs_Marg js) 360 = VFloat m ->
+  let m := pymod (rs_Marg js) 360 in
   let mr := m * (PI / 180) in
-  fmod_py Rops (rs_Larg m mr) 360 = VFloat lam ->
+  let lam := pymod (rs_Larg m mr) 360 in
   let lr := lam * (PI / 180) in
   let sd := rs_sind lr in
   let c := rs_cosom h phi sd in
   let jt := rs_jtran js mr lr in
   let om := acos c * (180 / PI) in
-  -1 <= sd <= 1 -> 0 < cos (phi * (PI / 180)) * cos (asin sd) -> -1 <= c <= 1 ->
-  Epoch___init__ Rops (VObj cEpoch [VNone]) (VTuple [VFloat (jt - om / (3600/10))]) (VDict []) = epo (jt - om / (3600/10)) ->
-  Epoch___init__ Rops (VObj cEpoch [VNone]) (VTuple [VFloat (jt + om / (3600/10))]) (VDict []) = epo (jt + om / (3600/10)) ->
-  Epoch_rise_set Rops (epo j) (ang phi) (ang lo) (VFloat h)
-  = VTuple [epo (jt - om / (3600/10)); epo (jt + om / (3600/10))].
+  0 < cos (phi * (PI / 180)) * cos (asin sd) -> -1 <= c <= 1 ->
+  forall r1 r2,
+  Epoch___init__ Rops (VObj cEpoch [VNone]) (VTuple [VFloat (jt - om / (3600/10))]) (VDict []) = epo r1 ->
+  Epoch___init__ Rops (VObj cEpoch [VNone]) (VTuple [VFloat (jt + om / (3600/10))]) (VDict []) = epo r2 ->
+  Epoch_rise_set Rops (epo j) (ang phi) (ang lo) (VFloat h) = VTuple [epo r1; epo r2].
 Proof. exact rise_set_closed_form. Qed.
+
+(* shapes of the abstracted callees, attained by the model (binary64 instance of the same text) *)
+Theorem C14_callee_shapes : C14_witness.callee_shapes.
+Proof. exact C14_witness.callee_shapes_hold. Qed.
 
 (* at hour angle +-w0 the altitude formula gives the standard altitude, for the code's own declination *)
 Theorem C14_rise_set_altitude : forall h phi sd,
@@ -140,24 +145,13 @@ Theorem C14_rise_set_polar : forall j phi lo h, -360 < phi < 360 -> (6655 / 100 
   Epoch_rise_set Rops (epo j) (ang phi) (ang lo) (VFloat h) = VErr ValueError.
 Proof. exact rise_set_polar. Qed.
 
-(* times_rise_transit_set: three None when |cos H0| > 1 ... *)
+(* times_rise_transit_set: three None when |cos H0| > 1 (the converse is only searched) *)
 Theorem C14_trts_none : forall lon phi a1 d1 a2 d2 a3 d3 h0 dt th0,
   cos (phi * (PI / 180)) * cos (d2 * (PI / 180)) <> 0 ->
   1 < Rabs (trts_cosH0 h0 phi d2) ->
   f_times_rise_transit_set Rops (ang lon) (ang phi) (ang a1) (ang d1) (ang a2) (ang d2) (ang a3) (ang d3)
     (ang h0) (VFloat dt) (ang th0) = VTuple [VNone; VNone; VNone].
 Proof. exact trts_none. Qed.
-
-(* ... and when |cos H0| <= 1 the guard is passed: the next statement, Angle(acos(cos H0), radians=True),
-   is reached (a failure x of it is the result of the call) *)
-Theorem C14_trts_passes_guard : forall lon phi a1 d1 a2 d2 a3 d3 h0 dt th0 x,
-  cos (phi * (PI / 180)) * cos (d2 * (PI / 180)) <> 0 ->
-  Rabs (trts_cosH0 h0 phi d2) <= 1 ->
-  Angle___init__ Rops (VObj cAngle [VNone; VNone]) (VTuple [VFloat (acos (trts_cosH0 h0 phi d2))])
-     (VDict [kw "radians" (VBool true)]) = VErr x ->
-  f_times_rise_transit_set Rops (ang lon) (ang phi) (ang a1) (ang d1) (ang a2) (ang d2) (ang a3) (ang d3)
-    (ang h0) (VFloat dt) (ang th0) = VErr x.
-Proof. exact trts_passes_guard. Qed.
 
 (* no hour angle reaches h0 when |cos H0| > 1 *)
 Theorem C14_never_crosses : forall h0 phi delta H,
@@ -170,11 +164,9 @@ Redirect "C14_eot_reduced.assumptions" Print Assumptions C14_eot_reduced.
 Redirect "C14_eot_bound.assumptions" Print Assumptions C14_eot_bound.
 Redirect "C14_eot_seconds.assumptions" Print Assumptions C14_eot_seconds.
 Redirect "C14_eot_recompose.assumptions" Print Assumptions C14_eot_recompose.
-Redirect "C14_season_first_query.assumptions" Print Assumptions C14_season_first_query.
 Redirect "C14_season_loop_invariant.assumptions" Print Assumptions C14_season_loop_invariant.
 Redirect "C14_season_year_range.assumptions" Print Assumptions C14_season_year_range.
 Redirect "C14_season_type.assumptions" Print Assumptions C14_season_type.
-Redirect "C14_season_exit_step.assumptions" Print Assumptions C14_season_exit_step.
 Redirect "C14_season_order.assumptions" Print Assumptions C14_season_order.
 Redirect "C14_season_year_length.assumptions" Print Assumptions C14_season_year_length.
 Redirect "C14_season_joint.assumptions" Print Assumptions C14_season_joint.
@@ -184,5 +176,6 @@ Redirect "C14_rise_set_altitude.assumptions" Print Assumptions C14_rise_set_alti
 Redirect "C14_rise_set_order.assumptions" Print Assumptions C14_rise_set_order.
 Redirect "C14_rise_set_polar.assumptions" Print Assumptions C14_rise_set_polar.
 Redirect "C14_trts_none.assumptions" Print Assumptions C14_trts_none.
-Redirect "C14_trts_passes_guard.assumptions" Print Assumptions C14_trts_passes_guard.
 Redirect "C14_never_crosses.assumptions" Print Assumptions C14_never_crosses.
+Redirect "C14_season_structure.assumptions" Print Assumptions C14_season_structure.
+Redirect "C14_callee_shapes.assumptions" Print Assumptions C14_callee_shapes.
